@@ -67,6 +67,9 @@ class Calc:
         self.need_nonzero = []            # (text, poly) of prime inverse atoms: side conditions
         self._k = 0
         self._G = None
+        self.hn_of = {}
+        self.used = set()
+        self._last_hn = None
 
     # ---------------------------------------------------------------------------------------------
     def _fresh(self, p):
@@ -92,8 +95,11 @@ class Calc:
     def _relation(self, poly, decl_fn):
         name = self._fresh('hr')
         decl = decl_fn(name)
+        if self._last_hn is not None:
+            self.hn_of[self._last_hn] = name
+            self._last_hn = None
         self.relations.append(dict(poly=sp.expand(poly), hyp=name, decl=decl))
-        self.pre.append(decl)
+        self.pre.append((f'rel:{name}', decl))
         self._G = None
         return name
 
@@ -122,6 +128,7 @@ class Calc:
         parts = []
         for q, r in zip(Q, self.relations):
             if q != 0:
+                self.used.add(r['hyp'])
                 parts.append(f'({self.sym_text(q)}) * {r["hyp"]}')
         return ' + '.join(parts) if parts else '0'
 
@@ -147,6 +154,7 @@ class Calc:
         parts = []
         for q, r in zip(Q, self.relations):
             if q != 0:
+                self.used.add(r['hyp'])
                 parts.append(f'({self.sym_text(q, raw=True)}) * {r["hyp"]}')
         return ' + '.join(parts) if parts else '0'
 
@@ -189,7 +197,9 @@ class Calc:
             if new:
                 hn = self._fresh('hn')
                 self.need_nonzero.append(dict(text=s, poly=p, hyp=hn))
-                self.pre.append(f'have {hn} : {s} ≠ 0 := by NZ_TAC')
+                self.pre.append((f'hn:{hn}', f'have {hn} : {s} ≠ 0 := by NZ_TAC'))
+                self.hn_of[hn] = None
+                self._last_hn = hn
                 self._relation(p * a['sym'] - 1,
                                lambda nm, s=s, hn=hn: f'have {nm} : {s} * ({s})⁻¹ = 1 := mul_inv_cancel₀ {hn}')
             return a['sym'], text
@@ -199,10 +209,23 @@ class Calc:
             lean_f = {'exp': 'Real.exp', 'sin': 'Real.sin', 'cos': 'Real.cos', 'tanh': 'Real.tanh',
                       'log': 'Real.log', 'sqrt': 'Real.sqrt'}.get(f)
             text = f'|{s}|' if f == 'abs' else f'({lean_f} {s})'
-            new = text not in self.by_text
+            if text in self.by_text:
+                return self.by_text[text]['sym'], text
+            # same function of an argument that is equal modulo the relations: merge with the first occurrence
+            key = ('un', f, sp.srepr(self.reduce(p)[1]))
+            if key in self.app_canon:
+                canon = self.app_canon[key]
+                hm = self._fresh('hm')
+                cert = self.prove_zero(p - canon['p'])
+                fn = '(fun z_ : ℝ => |z_|)' if f == 'abs' else lean_f
+                self.pre.append((None, f'have {hm} : {text} = {canon["text"]} := congrArg {fn} '
+                                f'(show ({s} : ℝ) = {canon["s"]} from by linear_combination {cert})'))
+                self.merges.append(hm)
+                self.by_text[text] = canon['atom']
+                return canon['atom']['sym'], text
             a = self._atom(text, f, tree_size(e))
-            if new:
-                self._un_relations(f, a, p, s)
+            self.app_canon[key] = dict(atom=a, text=text, p=p, s=s)
+            self._un_relations(f, a, p, s)
             return a['sym'], text
         if op == 'app':
             f, mi, args = e[1], e[2], e[3]
@@ -237,7 +260,7 @@ class Calc:
                     steps.append(f'exact {term}')
                 else:
                     steps.append('rfl')
-                self.pre.append(f'have {hm} : {text} = {canon["text"]} := by\n    ' + '\n    '.join(steps))
+                self.pre.append((None, f'have {hm} : {text} = {canon["text"]} := by\n    ' + '\n    '.join(steps)))
                 self.merges.append(hm)
                 self.by_text[text] = canon['atom']
                 return canon['atom']['sym'], text
@@ -284,6 +307,20 @@ class Calc:
             a['poly'], a['arg'] = p, s
 
     # ---------------------------------------------------------------------------------------------
+    def pre_lines(self):
+        """the `have` lines actually needed: relations with a non-zero quotient somewhere, and their side conditions"""
+        out = []
+        for tag, text in self.pre:
+            if tag is None:
+                out.append(text)
+            elif tag.startswith('rel:'):
+                if tag[4:] in self.used:
+                    out.append(text)
+            elif tag.startswith('hn:'):
+                if self.hn_of.get(tag[3:]) in self.used:
+                    out.append(text)
+        return out
+
     def generalize_lines(self):
         """generalize atoms, largest first, so nested atoms are matched in raw form"""
         lines = []
